@@ -29,17 +29,22 @@ P = {
        "float/big.Int/string conversions belong to C02.",
   ref="DESIGN.md section 5 C01"),
  "C11": dict(
-  text="22 Lean theorems about the heap model of errs.Error (nodes with message/cause/next, Append transcribed with its cursor, "
-       "node-by-node copy and write log; Wrap/WrapTyped/Unwrap/NewWithCause/ErrorOrNil): append_items, append_nil_iff, "
-       "append_written / append_frame / append_args_unchanged (no appended argument is mutated), append_chain, count_eq, "
-       "wrapped_errors_eq, wrap_nil, wrap_idempotent, wrap_reaches_cause, reachable_wf, append_items_alias (content law under "
-       "any aliasing). Histories over named variables print every variable after every call, so mutation of arguments and "
-       "pointer identity are compared.",
-  note="stack text, fmt verbs, errors.Is/As and slog output have no model: implementation-side oracle only; heaps built with "
-       "CloneWithPrefixMessage are outside the WF invariant (correspondence only); each Append argument is read as the value it "
-       "has when consumed (Append(a,b,a) has four items - reading, Appendix B); the accumulator adopted when err is nil is the "
-       "first non-nil *Error argument.",
-  ref="DESIGN.md section 5 C11"),
+  text="33 Lean theorems about the heap model of errs.Error (nodes with message/cause/next, Append transcribed with its cursor, "
+       "node-by-node copy and write log; Wrap/WrapTyped/Unwrap/NewWithCause/ErrorOrNil) and of its rendering (Model/ErrsFmt.lean: "
+       "%s, %q, Detail, the Caused-by structure of %v/%+v, the recorded stack as an abstract token = creating function + capture "
+       "serial): append_items, append_nil_iff, append_written / append_frame / append_args_unchanged (NO argument is mutated - "
+       "every argument, since fix f2f6175), append_chain, count_eq, wrapped_errors_eq, wrap_reaches_cause, reachable_wf incl. "
+       "WrappedErrors elements, append_items_alias (content law under any aliasing), message_of_items / append_message, "
+       "stacks_never_change, append_stacks / append_stacks_fresh (the stacks along an Append result are the accumulator's, then "
+       "copies keeping their source's stack, then wrappers captured by this call). Histories over named variables print every "
+       "variable after every call, so mutation of arguments and pointer identity are compared; on every render line the real "
+       "%v/%+v with each block of frame lines replaced by creator.serial must equal the model's text.",
+  note="wrap_nil / wrapTyped_nil / wrap_idempotent / error_or_nil / capture_records_creator / copy_keeps_stack / "
+       "caused_by_structure are unfoldings of the transcription (tied to the code by the correspondence run); implementation-"
+       "only (oracle): frames below the creating function, file:line text, errors.Is/As, Unwrap() []error, Recovery, slog; heaps "
+       "after CloneWithPrefixMessage of an aggregate are outside the WF invariant (shared tails; correspondence only); each "
+       "Append argument is read as the value it has when consumed (Append(a,b,a) has four items - reading, Appendix B).",
+  ref="DESIGN.md section 5 C11, section 0"),
  "C02": dict(
   text="37 Lean theorems about executable models of the Uint128/Int128 conversion surface and of IEEE binary64 (GoSem/F64.lean, "
        "floats as data, rounding by exact integer arithmetic): String/parse and unmarshal round trips, Scan (text printed with %d %b %o %O %x %X - any sign form, any zero padding, every "
